@@ -217,6 +217,7 @@ func eachSmallName(maxUnits int, emit func(structCase)) {
 type pairCase struct {
 	A, B [][]byte // wire labels
 	FQ   bool     // both names equally qualified (precondition of every caller in the library)
+	Raw  bool     // octets >= 0x80 are written raw (as typed UTF-8) instead of \DDD: they compare octet for octet
 }
 
 func render(n wm.Name, fq bool) string {
@@ -225,6 +226,27 @@ func render(n wm.Name, fq bool) string {
 		s = s[:len(s)-1]
 	}
 	return s
+}
+
+// renderRaw is render, but octets >= 0x80 are written raw
+func renderRaw(n wm.Name, fq bool) string {
+	var sb strings.Builder
+	for i, l := range n {
+		for _, c := range l {
+			if c >= 0x80 {
+				sb.WriteByte(c)
+			} else {
+				sb.WriteString(wm.EscLabel([]byte{c}))
+			}
+		}
+		if i < len(n)-1 || fq {
+			sb.WriteByte('.')
+		}
+	}
+	if len(n) == 0 {
+		return "."
+	}
+	return sb.String()
 }
 
 func commonSuffix(a, b wm.Name) int {
@@ -244,6 +266,9 @@ func checkPair(c pairCase) error {
 		c.FQ = true // the root has no unqualified spelling
 	}
 	sa, sb := render(a, c.FQ), render(b, c.FQ)
+	if c.Raw {
+		sa, sb = renderRaw(a, c.FQ), renderRaw(b, c.FQ)
+	}
 	want := commonSuffix(a, b)
 	differ := !a.Equal(b)
 	pbt.Note([]byte(sa+"|"+sb), want >= 1 && differ, fmt.Sprintf("common=%d", min(want, 3)), fmt.Sprintf("differ=%v", differ))
@@ -265,9 +290,40 @@ func checkPair(c pairCase) error {
 	return nil
 }
 
+// manyLabels draws a name with a label count near the interesting boundaries (powers of two, the maximum 127)
+func manyLabels(t *rapid.T) wm.Name {
+	n := rapid.SampledFrom([]int{7, 8, 9, 15, 16, 17, 31, 32, 33, 34, 63, 64, 65, 100, 126, 127}).Draw(t, "nlabels")
+	var out wm.Name
+	for i := 0; i < n; i++ {
+		out = append(out, []byte{"abcAB1-"[rapid.IntRange(0, 6).Draw(t, "c")]})
+	}
+	return out
+}
+
+// utf8Label draws a label holding raw UTF-8 letters whose upper/lower-case forms differ only outside ASCII
+func utf8Label(t *rapid.T) []byte {
+	parts := []string{"É", "é", "Ü", "ü", "Ω", "ω", "Д", "д", "a", "A", "ß", "ẞ", "\xff", "\xfe"}
+	var l []byte
+	for i := rapid.IntRange(1, 3).Draw(t, "nparts"); i > 0; i-- {
+		l = append(l, rapid.SampledFrom(parts).Draw(t, "part")...)
+	}
+	return l
+}
+
 func genPair(t *rapid.T) pairCase {
 	o := gen.NameOpts{MaxLabs: 5, MaxLabel: 6}
 	a := gen.Name(t, o)
+	switch rapid.IntRange(0, 7).Draw(t, "special") {
+	case 0:
+		a = manyLabels(t)
+	case 1:
+		a = wm.Name{utf8Label(t), []byte("example")}
+		b := wm.Name{utf8Label(t), []byte("Example")}
+		if rapid.Bool().Draw(t, "samebytes") {
+			b[0] = append([]byte(nil), a[0]...)
+		}
+		return pairCase{A: a, B: b, FQ: rapid.Bool().Draw(t, "fq"), Raw: true}
+	}
 	var b wm.Name
 	switch rapid.IntRange(0, 4).Draw(t, "rel") {
 	case 0:
